@@ -43,7 +43,9 @@ TRUSTED = ['hand-written model of CharToLineOffset (lean/TexSoupModel/Pos.lean) 
            'position + start and text[start:start+length]), not exercised by a correspondence run of its own; the text '
            'view it iterates is the one of lean/TexSoupModel/Nav.lean (correspondence run of C04)',
            'Python re module (clause iii)']
-ASSUMPTIONS = ['LF line structure (a line break is the single character U+000A)',
+ASSUMPTIONS = ['NUL/DEL may only be dropped (C19): in a document that contains them a text stands at its recorded offset '
+               'if its first character stands there and the rest follows with dropped NUL/DEL skipped',
+               'LF line structure (a line break is the single character U+000A)',
                'CPython str/bisect semantics', 'the model driver is the compiled form of the verified definitions',
                'arguments are bracket/brace groups (the quantifier\'s "commands with [..]/{..} arguments"): the group '
                'that the reader invents for a mandatory argument given without braces (\\textbf x; position -1, '
@@ -62,6 +64,16 @@ def _docs(ctx, tag, n):
     docs = list(lib_nav.FIXED) + gen.corpus()
     docs += [lib_nav.gen_doc(rng) for _ in range(n)]
     docs += [lib_nav.gen_doc(rng, depth=6, width=8) for _ in range(n // 10)]
+    # NUL/DEL are dropped at token boundaries and kept inside a text run: the offsets of everything behind one
+    # must still be source offsets (seeded change C13-j dropped them inside text runs as well)
+    base = [d for d in docs if d]
+    for _ in range(n // 5):
+        d = rng.choice(base)
+        for _ in range(rng.choice((1, 1, 2))):
+            k = rng.randint(0, len(d))
+            d = d[:k] + rng.choice('\x00\x7f') + d[k:]
+        docs.append(d)
+    docs += ['see\x00 Figure 7', 'ab\x7fcd 12 \\x{y\x00z} w', '\x00a b', 'a \x7f b\n\x00c d']
     seen, out = set(), []
     for d in docs:
         if d not in seen:
@@ -189,11 +201,36 @@ def _brute(s, p):
     return line, col
 
 
+IGNORED = '\x00\x7f'
+# the verbatim-like environments (the property text of C11, not the code's table)
+VERBATIM_LIKE = ('lstlisting', 'verbatim', 'verbatimtab', 'Verbatim', 'listing')
+
+
+def _align(src, p, t):
+    """offsets of the characters of `t` in `src` when `t` stands at p with NUL/DEL characters of the source that `t`
+    lacks skipped AFTER its first character (the first character stands at p itself); None if it does not"""
+    out = []
+    i, n = p, len(src)
+    for j, ch in enumerate(t):
+        while j > 0 and i < n and src[i] != ch and src[i] in IGNORED:
+            i += 1
+        if i >= n or src[i] != ch:
+            return None
+        out.append(i)
+        i += 1
+    return out
+
+
+def _stands(src, p, t):
+    """`t` stands in `src` at offset p: exactly, or - NUL/DEL may only be dropped - modulo dropped NUL/DEL (_align)"""
+    return src.startswith(t, p) or _align(src, p, t) is not None
+
+
 def _loose(src, p, t):
-    """`t` stands in `src` at offset p, source whitespace that `t` lacks being skipped"""
+    """`t` stands in `src` at offset p, source whitespace (and dropped NUL/DEL) that `t` lacks being skipped"""
     i, n = p, len(src)
     for ch in t:
-        while i < n and src[i] != ch and src[i].isspace():
+        while i < n and src[i] != ch and (src[i].isspace() or src[i] in IGNORED):
             i += 1
         if i >= n or src[i] != ch:
             return False
@@ -224,7 +261,10 @@ def _oracle_doc(src):
         if all(k != key for k, _ in fails):     # one per key and document
             fails.append((key, what))
 
+    has_ignored = any(c in src for c in IGNORED)
     in_invented = [False]
+    in_verbatim = [False]
+    lossy = []
 
     def invented(g):
         """a group made up by the reader for a mandatory argument given without braces"""
@@ -246,7 +286,10 @@ def _oracle_doc(src):
             return
         if not isinstance(tok, Token) or not isinstance(p, int) or isinstance(p, bool):
             fail('text-position', '%s: text %r carries no position (%s)' % (where, str(tok)[:20], type(tok).__name__))
-        elif not (0 <= p <= len(src)) or not src.startswith(str(tok), p):
+        elif in_verbatim[0] and 0 <= p <= len(src) and not src.startswith(str(tok), p) and \
+                _align(src, p, str(tok)) is not None:
+            lossy.append((p, _align(src, p, str(tok))))     # joined tokens, NUL/DEL dropped in between (finding F23)
+        elif not (0 <= p <= len(src)) or not _stands(src, p, str(tok)):
             fail('text-position', '%s: text %r recorded at %r, source has %r' % (
                 where, str(tok)[:20], p, src[max(p, 0):max(p, 0) + len(str(tok))][:20]))
 
@@ -260,14 +303,19 @@ def _oracle_doc(src):
             fail('node-position', '%s: %s %r recorded at %r' % (where, type(e).__name__, str(e)[:30], p))
             return
         if isinstance(e, D.TexCmd):
-            ok = src.startswith('\\' + e.name, p)
+            ok = _stands(src, p, '\\' + e.name)
         elif isinstance(e, D.TexNamedEnv):
-            ok = src.startswith('\\begin', p) and _loose(src, p, e.begin)
+            ok = _stands(src, p, '\\begin') and _loose(src, p, e.begin)
         else:
-            ok = src.startswith(e.begin, p)
+            ok = _stands(src, p, e.begin)
         if not ok:
             fail('node-position', '%s: %s %r recorded at %r, source has %r' % (
                 where, type(e).__name__, str(e)[:30], p, src[p:p + 12]))
+        elif has_ignored:
+            # with NUL/DEL in the source the printed text is not the source text (C08/C16 exclude such inputs:
+            # `\en<DEL>d{verbatim}` closes a verbatim body and leaves a brace behind); C13 is about the recorded
+            # offset, which the opening check above decides
+            bump('nodes_full_text_skipped_nul_del')
         elif not has_invented(e):
             bump('nodes_full_text')
             if not _loose(src, p, str(e)):
@@ -282,14 +330,17 @@ def _oracle_doc(src):
                 in_invented[0] = invented(a)
                 walk(a)
                 in_invented[0] = False
+        in_verbatim[0] = isinstance(e, D.TexNamedEnv) and e.name in VERBATIM_LIKE and len(e._contents) == 1
         for c in e._contents:
             if isinstance(c, D.TexText):
                 check_text(c._text, 'tree')
             elif isinstance(c, D.TexExpr):
+                in_verbatim[0] = False
                 check_node(c, 'tree')
                 walk(c)
             else:
                 check_text(c, 'tree')
+        in_verbatim[0] = False
 
     # (i) through the public views, then structurally (argument groups, blank text)
     positions_seen = []
@@ -347,8 +398,15 @@ def _oracle_doc(src):
             bump('regex_matches', len(ms))
             for m in ms:
                 p = getattr(m, 'position', None)
-                if not isinstance(p, int) or p < 0 or src[p:p + len(m)] != str(m):
-                    fail('regex-offset', 'search_regex(%r): match %r reported at %r, source has %r' % (
+                if not isinstance(p, int) or p < 0 or not _stands(src, p, str(m)):
+                    key = 'regex-offset'
+                    # finding F23: the body of a verbatim-like environment is ONE token joined from the tokens of the
+                    # body; a NUL/DEL dropped between two of them makes the text shorter than its source span, and
+                    # position + match.start() is then too small by the number dropped before the match
+                    for b, al in lossy:
+                        if isinstance(p, int) and b <= p < b + len(al) and _stands(src, al[p - b], str(m)):
+                            key = 'regex-offset-ignored-in-verbatim'
+                    fail(key, 'search_regex(%r): match %r reported at %r, source has %r' % (
                         getattr(pat, 'pattern', pat), str(m)[:20], p,
                         src[p:p + len(m)][:20] if isinstance(p, int) else None))
                     break
@@ -413,7 +471,10 @@ def oracle(ctx, seeds, scale):
               'every offset 0..len-1 of the document and EXHAUSTIVELY for every string over {a, LF} up to length %d, '
               'via CharToLineOffset and via TexSoup(s).char_pos_to_line; (iii) for %d patterns (str, precompiled, '
               'with flags) every match m of search_regex: src[m.position:m.position+len(m)] == str(m); a search '
-              'that raises is a failure' % (n, len(PATTERNS)))
+              'that raises is a failure.  A fifth of the random documents carry NUL/DEL characters at random places: '
+              'texts and matches are then compared modulo NUL/DEL dropped after their first character, the full-text '
+              'clause (which is C01\'s) is skipped for them, and a match inside a verbatim-like body whose joined text '
+              'lost a NUL/DEL is finding F23 (key regex-offset-ignored-in-verbatim)' % (n, len(PATTERNS)))
     r.exhaustive = True
     return r
 
